@@ -7,7 +7,8 @@ Every mutant in sa/mutants/<Cxx>.py is (name, file, old, new, expect) with
 expect = "fire" (the check must exit 1 and the report must mention `needle`)
 or "silent" (a behaviour-preserving twin: the check must exit 0).  The edit is
 a unique-substring replacement in a scratch copy (under $TMPDIR, removed in a
-finally); the mutated file must still compile.  Exit 0 iff every mutant behaves
+finally); a mutated .py file must still compile (data files such as the JSON
+table are not compiled).  Exit 0 iff every mutant behaves
 as expected.
 """
 import argparse
@@ -41,10 +42,11 @@ def run_one(args):
         if src.count(old) != 1:
             return (pid, name, False, "mutant not applicable: snippet occurs %d times in %s" % (src.count(old), rel))
         src2 = src.replace(old, new)
-        try:
-            compile(src2, rel, "exec")
-        except SyntaxError as e:
-            return (pid, name, False, "mutant does not compile: %s" % e)
+        if rel.endswith(".py"):
+            try:
+                compile(src2, rel, "exec")
+            except SyntaxError as e:
+                return (pid, name, False, "mutant does not compile: %s" % e)
         with open(path, "w", encoding="utf-8") as f:
             f.write(src2)
         env = dict(os.environ)
